@@ -906,6 +906,18 @@ func (nr *netRun) checkC08(x *xfer) {
 				}
 			default:
 				if pausedAt >= 0 && e.Snap.RPaused && lim(e.Snap) > at && !isTerminal(e.Snap.Status) {
+					// the responder's own application resuming the channel explicitly (ResumeDataTransferChannel) lets data
+					// flow again; its ResumeResponder may be announced after the first progress event
+					byApp := false
+					for _, o2 := range nr.ops {
+						if o2.X == x && o2.Node == b && o2.Kind == "Resume" && o2.Life == life && o2.Call.S0 <= e.Step && (!o2.Call.Returned || o2.Call.S1 >= pausedLB) {
+							byApp = true
+						}
+					}
+					if byApp {
+						pausedAt = -1
+						continue
+					}
 					// F14: a restart request validated *before* the limit was reached (decision: not paused) and carried out after it
 					cause := ""
 					for _, vc := range b.ValCalls {
